@@ -45,6 +45,11 @@ let rec expr_of (x : sx) : expr =
   | L (A "arr" :: es) -> EArr (List.map expr_of es)
   | L [A "at"; a; i] -> EAt (expr_of a, expr_of i)
   | L [A "len"; a] -> ELen (expr_of a)
+  | L [A "s1"; A o; a] -> EStr1 ((match o with "len" -> SLen | "ofint" -> SOfInt | _ -> failwith ("sop1 " ^ o)), expr_of a)
+  | L [A "s2"; A o; a; b] ->
+      EStr2 ((match o with "plus" -> SPlus | "concat" -> SConcat | "equals" -> SEquals | "contains" -> SContains | "charat" -> SCharAt
+              | _ -> failwith ("sop2 " ^ o)), expr_of a, expr_of b)
+  | L [A "substr"; a; b; c] -> ESubstr (expr_of a, expr_of b, expr_of c)
   | _ -> failwith "expr"
 let rec stmt_of (x : sx) : stmt =
   match x with
